@@ -166,6 +166,35 @@ def run(ctx):
                 add('expectation_variance', '(let M := qubit_matrix %s %s in let x := %s in let Mx := mvmul M x in let e := vdot (map Cconj x) Mx in '
                     'le2 %s (Csub e %s) && le2 %s (Csub (Csub (vdot (map Cconj x) (mvmul M Mx)) (Cmul e e)) %s))' % (cnat(n), coq_qop(H), cvec(nrm), cQ(Fraction(1, 10 ** 12)), cC(complex(e)), cQ(Fraction(1, 10 ** 10)), cC(complex(v))),
                     {'call': 'expectation / variance', 'n_qubits': n, 'terms': {repr(t): repr(c) for t, c in H.terms.items()}}, key=repr(H.terms))
+                # the same through the other accepted state formats: column vector, sparse density matrix (pure and
+                # mixed, complex), LinearQubitOperator; also for the non-Hermitian operator itself (Tr(rho O), not Tr(rho O^T))
+                import scipy.sparse as _sp
+                y = np.array([complex(rng.randint(-3, 3), rng.randint(-3, 3)) for _ in range(2 ** n)]); y = y / (np.linalg.norm(y) or 1.0)
+                if not np.any(y): y = np.zeros(2 ** n, dtype=complex); y[0] = 1.0
+                xv = np.asarray(nrm, dtype=complex); pmix = 0.25
+                rho = pmix * np.outer(xv, xv.conj()) + (1 - pmix) * np.outer(y, y.conj())
+                Mo = of.get_sparse_operator(qop, n_qubits=n)
+                for nm_, Mx_ in (('H', Ms), ('op', Mo)):
+                    Md_ = dense(Mx_)
+                    refs = {'column': (xv.conj() @ Md_ @ xv, xv.reshape(-1, 1)), 'density_pure': (np.trace(np.outer(xv, xv.conj()) @ Md_), _sp.csc_matrix(np.outer(xv, xv.conj()))),
+                            'density_mixed': (np.trace(rho @ Md_), _sp.csc_matrix(rho)), 'density_mixed_csr': (np.trace(rho @ Md_), _sp.csr_matrix(rho))}
+                    for fmt, (want, stt) in refs.items():
+                        got = st.expectation(Mx_, stt)
+                        ctx.count('expectation_formats', 1, nontrivial_key=(repr(qop.terms), nm_, fmt))
+                        if abs(complex(got) - complex(want)) > 1e-9:
+                            ctx.violation('C06 expectation (%s state, %s): %r differs from direct linear algebra %r' % (fmt, nm_, complex(got), complex(want)),
+                                          {'call': 'expectation', 'state_format': fmt, 'operator': nm_, 'terms': rp['terms'], 'n_qubits': n, 'x': repr(xv.tolist()), 'y': repr(y.tolist())})
+                        if fmt != 'column':
+                            gv = st.variance(Mx_, stt); wv = np.trace(rho @ Md_ @ Md_) - np.trace(rho @ Md_) ** 2 if 'mixed' in fmt else xv.conj() @ Md_ @ Md_ @ xv - (xv.conj() @ Md_ @ xv) ** 2
+                            if abs(complex(gv) - complex(wv)) > 1e-8:
+                                ctx.violation('C06 variance (%s state, %s): %r differs from direct linear algebra %r' % (fmt, nm_, complex(gv), complex(wv)),
+                                              {'call': 'variance', 'state_format': fmt, 'operator': nm_, 'terms': rp['terms'], 'n_qubits': n})
+                if n >= 1 and H.terms:
+                    lq = of.LinearQubitOperator(H, n)
+                    got = st.expectation(lq, xv); want = xv.conj() @ dense(Ms) @ xv
+                    ctx.count('expectation_formats', 1, nontrivial_key=(repr(H.terms), 'linear'))
+                    if abs(complex(got) - complex(want)) > 1e-9:
+                        ctx.violation('C06 expectation through LinearQubitOperator differs from direct linear algebra', {'call': 'expectation(LinearQubitOperator)', 'terms': repr(H.terms), 'n_qubits': n})
                 ev = of.eigenspectrum(H, n)
                 Md = dense(Ms)
                 ctx.count('eigenspectrum_traces', 1, nontrivial_key=repr(H.terms))
